@@ -130,7 +130,7 @@ def run(ctx):
         stress = [c[1] for c in ctx.replay['cases'] if c[0] == 'stress']
     else:
         cases = list(CORPUS)
-        n = 2500 if ctx.quick() else 40000
+        n = 6000 if ctx.quick() else 40000
         while len(cases) < n:
             cases.append(gen_case(ctx.rng))
         stress = ['100 6 2500', '8 4 1500'] if ctx.quick() else ['100 8 30000', '125 4 8000', '8 8 8000']
